@@ -629,3 +629,7 @@ MANIFEST_ENTRY = dict(
     note='k <= 3 requests; ideal mutex per lock name (C07 is its proof); cache monotone; scenarios enumerated; process-level deployment differs only in '
          'the lock implementation.',
 )
+
+# --- manifest text refreshed after rounds 6-8 (obligations added since the entry above was written)
+MANIFEST_ENTRY['text'] = MANIFEST_ENTRY['text'] + ' Stale (not absent) tiles: the re-check under the lock uses the timestamp written by the lock holder (E1, shared with C13).'
+MANIFEST_ENTRY['engine'] = 'E3+E1'
